@@ -358,4 +358,5 @@ func Run02(r *ev.Run) {
 			}
 		}
 	})
+	nestedFaults(r)
 }
